@@ -390,6 +390,60 @@ fn main() {
         });
         sink.merge(s2);
     }
+    // the outcome never depends on an enumerated field either: every value of the handshake-level fields of
+    // C11 (cipher ids, versions, compression ids, key-update values, status types, ...) parsed into a real
+    // message and pushed through every (state, direction) cell
+    {
+        let fields = vchecks::fields::fields();
+        let mut items: Vec<(usize, u32, u32)> = Vec::new();
+        for (fi, f) in fields.iter().enumerate() {
+            if f.bits == 0 || !f.targets.iter().any(|t| t.name == "parse_tls_message_handshake") {
+                continue;
+            }
+            let n = 1u32 << f.bits;
+            let mut lo = 0;
+            while lo < n {
+                items.push((fi, lo, (lo + 1024).min(n)));
+                lo += 1024;
+            }
+        }
+        let states = all_states();
+        let sf = par_run(run.threads, items.len(), |i, sink| {
+            let (fi, lo, hi) = items[i];
+            for x in lo..hi {
+                let w = (fields[fi].build)(x);
+                let Ok((_, m)) = tls_parser::parse_tls_message_handshake(&w.buf) else { continue };
+                let k = match &m {
+                    TlsMessage::Handshake(h) => match h {
+                        TlsMessageHandshake::ClientHello(c) => if c.session_id.is_some() { "CH1" } else { "CH0" },
+                        TlsMessageHandshake::ServerHello(_) => "SH",
+                        TlsMessageHandshake::ServerHelloV13Draft18(_) => "SH13",
+                        TlsMessageHandshake::HelloRetryRequest(_) => "HRR",
+                        TlsMessageHandshake::CertificateRequest(_) => "CReq",
+                        TlsMessageHandshake::CertificateStatus(_) => "CSt",
+                        TlsMessageHandshake::KeyUpdate(_) => "KU",
+                        _ => continue,
+                    },
+                    _ => continue,
+                };
+                let k = kind(k);
+                for (si, s) in states.iter().enumerate() {
+                    for dir in [true, false] {
+                        sink.evals += 1;
+                        if let Err(what) = check_cell(*s, k, None, &m, dir) {
+                            sink.violation(
+                                format!("cell {} {} {} field", STATES[si], KINDS[k], dirn(dir)),
+                                format!("{} [field {:?} = {}]", what, fields[fi].name, x),
+                                json!({"kind":"cell","state":STATES[si],"msg":KINDS[k],"payload":0,"to_server":dir}),
+                            );
+                        }
+                    }
+                }
+                sink.bump("field-value messages", 1);
+            }
+        });
+        sink.merge(sf);
+    }
     let cells = sink.evals;
     let b = bfs(&mut sink);
     let (all_init_states, all_init_transitions) = bfs_all_initial(&mut sink);
@@ -440,7 +494,7 @@ fn main() {
     );
     cov.insert("exhaustive".into(), json!(true));
     cov.insert("rule".into(), json!(
-        "E3: every (state, direction, kind, payload variant) cell incl. all 256x256 alerts, compared with the reference table, plus every cell with every message of a parsed payload corpus (handshake catalogue, magic randoms, hellos whose extension block is each known extension alone and in pairs); non-trivial = from-state is not one of the three constant rows (Invalid, SessionEncrypted, Finished). E1: BFS to fixpoint of (implementation state, table state, flow-NFA subset) from None over 23 kinds x 2 directions; every transition calls the real tls_state_transition"));
+        "E3: every (state, direction, kind, payload variant) cell incl. all 256x256 alerts, compared with the reference table, plus every cell with every value of every handshake-level enumerated field (all 65536 cipher ids, versions, ...) and with every message of a parsed payload corpus (handshake catalogue, magic randoms, hellos whose extension block is each known extension alone and in pairs); non-trivial = from-state is not one of the three constant rows (Invalid, SessionEncrypted, Finished). E1: BFS to fixpoint of (implementation state, table state, flow-NFA subset) from None over 23 kinds x 2 directions; every transition calls the real tls_state_transition"));
     let mut samples = b.samples.clone();
     samples.extend(sink.samples.iter().cloned());
     cov.insert("samples".into(), json!(samples));
